@@ -15,6 +15,11 @@ Specs (all JSON):
          `edge_rule` is requested) a face becomes Neumann only if it shares no edge (two
          nodes) with a face that is already Neumann - the MPSA admissibility condition of
          C13, enforced by greedy construction, never by rejection.
+         mode "roller" adds "roll": [mask,...]: a face that is not fully Dirichlet (number i in the
+         order of g.get_all_boundary_faces()) keeps Dirichlet conditions in the components whose
+         bit is set in roll[i % len] (bit k = component k; 0 = Neumann in all components), the
+         other components are Neumann: component-wise mixed ("roller") conditions, see
+         build_vbc_components.
   field  {"kind": ..., "c": [c0,c1,c2], "G": 3x3}      u(x) = c + G x   (2-d: upper-left 2x2)
 
 Vector quantities on faces / cells are flattened face-wise ("F" order): index d + nd * f.
@@ -65,6 +70,9 @@ def vbc_spec(draw, modes=("mix", "mix", "mix", "all_dir", "one_dir")):
     if mode in ("one_dir", "few_dir", "all_neu"):
         return {"mode": mode, "pattern": [1], "anchor": anchor}
     pat = draw(st.lists(st.integers(0, 1), min_size=2, max_size=PATTERN_LEN))
+    if mode == "roller":
+        roll = draw(st.lists(st.integers(0, 7), min_size=1, max_size=PATTERN_LEN))
+        return {"mode": mode, "pattern": pat, "anchor": anchor, "roll": roll}
     return {"mode": mode, "pattern": pat, "anchor": anchor}
 
 
@@ -232,6 +240,35 @@ def build_vbc(bs, g, edge_rule=None, min_dir_rank=0, min_cell_rank=0):
     faces = np.where(is_dir)[0]
     bc = pp.BoundaryConditionVectorial(g, faces, ["dir"] * faces.size)
     return bc, is_dir, neu
+
+
+def build_vbc_components(bs, g, edge_rule=None, min_dir_rank=0, min_cell_rank=0):
+    """Component-wise boundary types.  The face-level construction of build_vbc decides which
+    boundary faces are fully Dirichlet (these alone count as "holding" faces for the
+    well-posedness rules, which is conservative); every other boundary face gets Dirichlet
+    conditions in the components selected by bs["roll"] (if present) and Neumann conditions in
+    the rest.  Returns (bc, is_dir, is_neu) with is_dir / is_neu boolean arrays (nd, num_faces)."""
+    import porepy as pp
+
+    nd = g.dim
+    not_full = neumann_mask(bs, g, edge_rule, min_dir_rank, min_cell_rank)
+    bf = g.get_all_boundary_faces()
+    is_dir = np.zeros((nd, g.num_faces), dtype=bool)
+    is_neu = np.zeros((nd, g.num_faces), dtype=bool)
+    roll = np.asarray(bs.get("roll") or [0], dtype=int)
+    for i, f in enumerate(bf):
+        mask = (2**nd - 1) if not not_full[f] else int(roll[i % roll.size]) & (2**nd - 1)
+        for k in range(nd):
+            if (mask >> k) & 1:
+                is_dir[k, f] = True
+            else:
+                is_neu[k, f] = True
+    full = np.where(np.all(is_dir, axis=0))[0]
+    bc = pp.BoundaryConditionVectorial(g, full, ["dir"] * full.size)
+    # component-wise types are set on the attributes, as the class docstring prescribes
+    bc.is_dir[:] = is_dir
+    bc.is_neu[:] = is_neu
+    return bc, is_dir, is_neu
 
 
 # --------------------------------------------------------------------------- fields
